@@ -110,7 +110,7 @@ CLAIMED["C10"] = (
 
 CLAIMED["C14"] = (
     "bounded symbolic execution of CellList.get_atoms / _get_cell_index / squared_distance lowered from celllist.pyx, once over exact rationals (real-number semantics, z3 integer arithmetic) and once over IEEE-754 binary32 terms (z3 QF_BVFP), plus solver-driven case split over the compiled CellList on dyadic coordinates against exact rational minimum-image distances",
-    "Bounded model checking. Class S (KX engine, source level): (1) real semantics: 2-3 atoms, one query, all coordinates and the radius symbolic multiples of 1/8 in 3-D, 5-7 constant cell sizes, scalar and per-query radius: atom listed <=> distance <= radius; (2) float32 semantics on one axis with arbitrary finite values |x| <= 1024: an atom passing the source's float32 distance test and strictly inside the radius in float64 is returned (this is where the solver found the recorded cell-border rounding defect); (3) cell index inside the allocated grid for arbitrary float32 min <= x <= max; (4, thorough) one extra cell layer suffices. Class E (compiled module): every configuration of 1..3 atoms over a position menu x cell sizes x 5 box kinds x selections, 18 queries x 7 radii through get_atoms (index / mask, single / batch / per-query radii), create_adjacency_matrix, get_atoms_in_cells; periodic images of box.py; radii far beyond the extent.",
+    "Bounded model checking. Class S (KX engine, source level): (1) real semantics: 2-3 atoms, one query, all coordinates and the radius symbolic multiples of 1/8 in 3-D, 5-7 constant cell sizes, scalar and per-query radius: atom listed <=> distance <= radius; (2) float32 semantics on one axis with arbitrary finite values |x| <= 1024: an atom passing the source's float32 distance test and strictly inside the radius in float64 is returned (this is where the solver found the recorded cell-border rounding defect); (3) cell index inside the allocated grid for arbitrary float32 min <= x <= max. Class E (compiled module): every configuration of 1..3 atoms over a position menu x cell sizes x 5 box kinds x selections, 18 queries x 7 radii through get_atoms (index / mask, single / batch / per-query radii), create_adjacency_matrix, get_atoms_in_cells; periodic images of box.py; radii far beyond the extent.",
     "Trusted: the contract that stands for the pointer-array scan (_find_adjacent_atoms: the cells within +-cell_radius of the query's cell are visited) - that C code itself is only exercised as a compiled black box; the exact-rational oracle in obligations/sx_c14.py; z3's floating-point theory; the kx lowering (validated against the compiled module on concrete vectors each run, including the rounding counterexample). Outside: more than 3 atoms per configuration, float32 rounding in 3-D (the float obligation is one axis), periodic boxes in the S-class part, pairs within 1e-4 of the radius in periodic boxes whose fractional transformation is inexact, |x| > 1024.",
     "DESIGN.md §4 C14")
 
